@@ -982,11 +982,33 @@ pub extern "C" fn set_errno(errno: c_int) {
     unsafe { errno_location().write(errno) }
 }
 
-/// Descriptors whose callers left them blocking and that hooked calls have forced into
-/// non-blocking mode, with the number of such calls in progress. A socket is routinely
+/// What `O_NONBLOCK` belongs to: the open file description behind a descriptor. Descriptors
+/// made by `dup` (`TcpStream::try_clone`, the usual way to give a socket's reader and its
+/// writer a handle each) share it - identified here by the device and inode numbers `fstat`
+/// reports.
+type Description = (u64, u64);
+
+fn description_of(fd: c_int) -> Option<Description> {
+    unsafe {
+        let mut stat: libc::stat = std::mem::zeroed();
+        if libc::fstat(fd, &raw mut stat) == 0 {
+            #[allow(clippy::useless_conversion, clippy::unnecessary_cast)]
+            Some((stat.st_dev as u64, stat.st_ino as u64))
+        } else {
+            None
+        }
+    }
+}
+
+/// Open file descriptions whose callers left them blocking and that hooked calls have forced
+/// into non-blocking mode, with the number of such calls in progress. A socket is routinely
 /// used by several callers at once (one coroutine parked in `recv`, another one sending):
 /// the flag alone cannot tell a later call what mode the caller chose.
-static FORCED_NON_BLOCKING: Lazy<DashMap<c_int, usize>> = Lazy::new(Default::default);
+static FORCED_NON_BLOCKING: Lazy<DashMap<Description, usize>> = Lazy::new(Default::default);
+
+/// Which description the calls in progress on a descriptor number have forced, and how many
+/// they are: a call whose descriptor was closed while it was parked can no longer ask.
+static FORCED_BY: Lazy<DashMap<c_int, (Description, usize)>> = Lazy::new(Default::default);
 
 /// Force the descriptor of a caller that left it blocking into non-blocking mode
 /// for the duration of a hooked call.
@@ -997,15 +1019,31 @@ static FORCED_NON_BLOCKING: Lazy<DashMap<c_int, usize>> = Lazy::new(Default::def
 /// # Panics
 /// if set fails on an open descriptor.
 pub extern "C" fn set_non_blocking(fd: c_int) {
-    if !set_non_blocking_flag(fd, true) {
-        assert!(descriptor_gone(), "set_non_blocking failed !");
+    let Some(description) = description_of(fd) else {
         return;
+    };
+    {
+        let mut calls = FORCED_NON_BLOCKING.entry(description).or_insert(0);
+        if !set_non_blocking_flag(fd, true) {
+            assert!(descriptor_gone(), "set_non_blocking failed !");
+            if *calls == 0 {
+                drop(calls);
+                _ = FORCED_NON_BLOCKING.remove_if(&description, |_, n| *n == 0);
+            }
+            return;
+        }
+        *calls += 1;
     }
-    *FORCED_NON_BLOCKING.entry(fd).or_insert(0) += 1;
+    let mut by = FORCED_BY.entry(fd).or_insert((description, 0));
+    if by.0 != description {
+        // the number has been reused since
+        *by = (description, 0);
+    }
+    by.1 += 1;
 }
 
-/// Leave a hooked call that used [`set_non_blocking`]; the last such call
-/// puts the descriptor back into blocking mode.
+/// Leave a hooked call that used [`set_non_blocking`]; the last such call on the open file
+/// description puts it back into blocking mode.
 ///
 /// A descriptor that was closed while the call was parked on it (the usual way
 /// to get rid of a reader) has no mode to put back.
@@ -1013,7 +1051,21 @@ pub extern "C" fn set_non_blocking(fd: c_int) {
 /// # Panics
 /// if set fails on an open descriptor.
 pub extern "C" fn set_blocking(fd: c_int) {
-    if let dashmap::mapref::entry::Entry::Occupied(mut calls) = FORCED_NON_BLOCKING.entry(fd) {
+    let mut description = None;
+    if let dashmap::mapref::entry::Entry::Occupied(mut by) = FORCED_BY.entry(fd) {
+        description = Some(by.get().0);
+        if by.get().1 > 1 {
+            by.get_mut().1 -= 1;
+        } else {
+            _ = by.remove();
+        }
+    }
+    let Some(description) = description.or_else(|| description_of(fd)) else {
+        return;
+    };
+    if let dashmap::mapref::entry::Entry::Occupied(mut calls) =
+        FORCED_NON_BLOCKING.entry(description)
+    {
         if *calls.get() > 1 {
             *calls.get_mut() -= 1;
             return;
@@ -1059,7 +1111,8 @@ extern "C" fn set_non_blocking_flag(fd: c_int, on: bool) -> bool {
 /// a hooked call in progress has forced the descriptor non-blocking.
 #[must_use]
 pub extern "C" fn is_blocking(fd: c_int) -> bool {
-    FORCED_NON_BLOCKING.contains_key(&fd) || !is_non_blocking(fd)
+    !is_non_blocking(fd)
+        || description_of(fd).is_some_and(|description| FORCED_NON_BLOCKING.contains_key(&description))
 }
 
 #[must_use]
